@@ -23,7 +23,7 @@ BEYOND = 'implies(mach > mach_list[len(mach_list) - 1], m == len(mach_list) - 2)
 
 contract(
     TC + '::_calculate_by_curve_and_mach_list',
-    props=('C09',),
+    props=('C09', 'C01'),
     params=dict(mach_list=ListOf(Real(), minlen=3), curve=CURVE, mach=Real()),
     requires=[('same-length', 'len(curve) == len(mach_list)'),
               ('ascending', 'forall(0, len(mach_list), lambda i: forall(i + 1, len(mach_list), lambda j: mach_list[i] < mach_list[j]))')],
@@ -51,7 +51,7 @@ LINE0 = ('{c}[0].a == 0 and line_through(data_points[0].Mach, data_points[0].CD,
 
 contract(
     TC + '::calculate_curve',
-    props=('C09',),
+    props=('C09', 'C01'),
     params=dict(data_points=POINTS),
     requires=[('ascending', 'forall(0, len(data_points), lambda i: forall(i + 1, len(data_points), lambda j: data_points[i].Mach < data_points[j].Mach))')],
     loops={0: LoopContract(
@@ -75,7 +75,7 @@ contract(
 
 contract(
     TC + '::_get_only_mach_data',
-    props=('C09',),
+    props=('C09', 'C01'),
     params=dict(data=ListOf(Obj(DragDataPoint, Mach=Real(), CD=Real()), minlen=0, frozen=True)),
     loops={0: LoopContract(
         invariants=[('length', 'len(result) == _i'),
@@ -96,7 +96,7 @@ SELF = Obj(tc.TrajectoryCalc, _TrajectoryCalc__mach_list=ListOf(Real(), minlen=3
 
 contract(
     TC + '::TrajectoryCalc.drag_by_mach',
-    props=('C09',),
+    props=('C09', 'C01'),
     params=dict(self=SELF, mach=Real()),
     requires=[('same-length', 'len(self._curve) == len(self._TrajectoryCalc__mach_list)'),
               ('ascending', 'forall(0, len(self._TrajectoryCalc__mach_list), lambda i: forall(i + 1, len(self._TrajectoryCalc__mach_list), '
